@@ -5,6 +5,10 @@ open Gen
 def step (line : String) : String :=
   match (line.trimAscii.toString.splitOn " ").filter (· ≠ "") with
   | [] => "bad-op"
+  | "@Q" :: name :: toks =>
+    match dispatchQ name toks with
+    | some (out, []) => " ".intercalate out
+    | _ => "bad-op"
   | name :: toks =>
     match dispatch name toks with
     | some (out, []) => " ".intercalate out
